@@ -28,6 +28,11 @@ def hook_write(n, accessor_names=("h",)):
     return None
 
 
+def _strip(t):
+    import re
+    return re.sub(r"#\d+", "", t)
+
+
 def path_sets(fn, label, skip_if=None):
     """Set of frozensets: for every normal path entry->exit the set of labels of the writes on it.
     label(n) -> hashable or None. Paths on which skip_if(n) is true for some element get the
@@ -158,6 +163,58 @@ def check_intrusive_list(ctx, unit, cls="frg::_list::intrusive_list"):
                         bad.append("a path does not reset %s of the erased element" % need.split(":")[0].split(".")[1])
             ctx.inst("H.list-erase", "%s::erase" % cls, not bad and bool(sets), f.loc,
                      "; ".join(sorted(set(bad))) if bad else "%d paths examined" % len(sets), f)
+        # any OTHER member that takes an element out of the list itself (clears its in_list flag) instead of delegating to
+        # erase() owes the list the same repairs, on every path on which it does so
+        for name_, fl_ in sorted(fns.items()):
+            if name_ == "erase":
+                continue
+            for f in fl_:
+                clears = []
+                for n in f.events():
+                    hw = hook_write(n)
+                    if hw and hw[0] == "in_list" and hw[1] is not None:
+                        v = hw[2].strip()
+                        if v.cv() == 0 or (v.kind == "CXXBoolLiteralExpr" and not v.get("bv")):
+                            clears.append(hw)
+                if not clears:
+                    continue
+
+                def keyof(x, f=f):
+                    xs = std_unwrap(RA.resolve_local(f, x))
+                    while xs.kind == "CallExpr" and xs.callee and xs.callee["n"] == "decay" and xs.args:
+                        xs = std_unwrap(RA.resolve_local(f, xs.args[0]))
+                    return _strip(canon(xs))
+                victim = {keyof(c[1]) for c in clears}
+
+                def label(n, f=f, victim=victim):
+                    hw = hook_write(n)
+                    if hw and hw[1] is not None:
+                        v = hw[2].strip()
+                        if keyof(hw[1]) in victim:
+                            isnull = v.get("nullc") or v.kind == "CXXNullPtrLiteralExpr" or v.cv() == 0 or \
+                                (v.kind == "CXXBoolLiteralExpr" and not v.get("bv"))
+                            return "self.%s:=%s" % (hw[0], "null" if isnull else "other")
+                        return "nbr.%s" % hw[0]
+                    w = write_of(n)
+                    if w and w[0] in (("this", "_front"), ("this", "_back")):
+                        return w[0][1]
+                    return None
+                sets = path_sets(f, label)
+                bad = []
+                n_real = 0
+                for s_ in sets:
+                    if "self.in_list:=null" not in s_:
+                        continue
+                    n_real += 1
+                    b = len({x for x in s_ if x in ("_back", "nbr.previous")})
+                    fw = len({x for x in s_ if x in ("_front", "nbr.next")})
+                    if b != 1 or fw != 1:
+                        bad.append("a path repairs %d backward and %d forward links (writes %s)" % (b, fw, sorted(s_)))
+                    for need in ("self.next:=null", "self.previous:=null"):
+                        if need not in s_:
+                            bad.append("a path does not reset %s of the removed element" % need.split(":")[0].split(".")[1])
+                ctx.inst("H.list-erase", "%s::%s (removes an element itself)" % (cls, name_), not bad and n_real > 0, f.loc,
+                         "; ".join(sorted(set(bad))) if bad else "%d removing paths examined" % n_real, f)
         for f in fns.get("splice", []):
             oth = [p for p in f.params() if p.get("rt") == cls]
             if not oth:
